@@ -8,6 +8,7 @@ import enum
 import json
 
 import attr
+import dateutil.tz
 import six
 import urllib3
 
@@ -420,7 +421,11 @@ class FieldValueComponentDateTime(FieldValueComponentKeyValueBase):
         parser.parse_date_time('value')
 
     def _get_value_as_simple_type(self):
-        return self.value.strftime('%a, %d %b %Y %H:%M:%S GMT')
+        value = self.value
+        if value.tzinfo is not None:
+            value = value.astimezone(dateutil.tz.UTC)
+
+        return value.strftime('%a, %d %b %Y %H:%M:%S GMT')
 
 
 @attr.s
